@@ -66,6 +66,9 @@ def run(res, tier, seed):
     r = vlib.model_check(res, SDY, 'Monitor', 'Monitor_1x1_nofence.cfg', must_hold=False, deadlock=False)
     if r.violation != 'NoLostWakeup':
         raise vlib.HarnessFailure('vacuity control failed: the Monitor model without the notifier-side fence should lose a wake-up under TSO')
+    # ---- sleepers on tbb::mutex / tbb::rw_mutex: the releasing side uses notify_*_relaxed; Monitor instantiated with the probed fact (see C08.unlock_fact_check)
+    import C08
+    C08.unlock_fact_check(res)
     # ---- task_arena::execute without a free slot: ExecSlot with the fact BATON extracted from the running code by a directed schedule
     p = vlib.sh([exe, 'probe_exec'], timeout=300)
     try:
